@@ -82,13 +82,13 @@ def forwardStrand : Filter := fun f => f.loc.strand == 1
 def reverseStrand : Filter := fun f => f.loc.strand == 2
 
 /-- the closure `Qualifier(name, query)` returns once `query` compiled:
-* empty name: `for _, vv := range f.Props { for _, v := range vv {…} }` — the inner loop runs
-  over the **whole row, name included** (as written in feature.go:158-167);
+* empty name: `for _, vv := range f.Props { for i, v := range vv { if i > 0 && … } }` — the
+  values of every row, the name (`vv[0]`) is skipped;
 * empty query: `f.Props.Has(name)`;
 * otherwise some value of `f.Props.Get(name)` (the first row of that name) is matched. -/
 def qualEval (mtch : String → String → Bool) (name query : String) : Filter :=
   if name = "" then
-    fun f => f.props.any fun vv => vv.any fun v => mtch query v
+    fun f => f.props.any fun vv => vv.tail.any fun v => mtch query v
   else if query = "" then
     fun f => Props.has f.props name
   else
